@@ -544,111 +544,343 @@ def run_reregistration(chk, F):
     if len(fs) != 1:
         raise AnalysisBroken('C09: Base_swap::_orderRows not found')
     f = fs[0]
-    env = {}            # local -> (coefficient of n, constant) ; n = number of columns
 
-    def lin(e, loopvar):
-        """(coefficient of the loop variable, coefficient of n, constant) or None"""
-        e = ir.skipcasts(e)
-        if e is None:
-            return None
-        k = e.get('k')
-        if k == 'ParenExpr':
-            return lin(e['c'][0], loopvar)
-        if k == 'IntegerLiteral':
-            return (0, 0, int(e.get('v', e.get('value', 0))))
-        if k == 'DeclRefExpr':
-            if e.get('n') == loopvar:
-                return (1, 0, 0)
-            if e.get('n') in env:
-                return (0,) + env[e['n']]
-            return None
-        if ir.is_call(e) and ir.call_name(e) == 'get_number_of_columns':
-            return (0, 1, 0)
-        if k == 'BinaryOperator' and e.get('op') in ('+', '-'):
-            a, b = lin(e['c'][0], loopvar), lin(e['c'][1], loopvar)
-            if a is None or b is None:
+    def analyse(map_cfg):
+        env = {}            # local -> (coefficient of n, constant) ; n = a bound above the keys the columns carry
+        above = set()       # locals raised above every key of the (map) column container
+        passes = []
+        counting = []       # counting loops that reorder, met in the map configuration
+
+        def lin(e, loopvar):
+            """(coefficient of the loop key, coefficient of n, constant) or None"""
+            e = ir.skipcasts(e)
+            if e is None:
                 return None
-            sg = 1 if e['op'] == '+' else -1
-            return tuple(x + sg * y for x, y in zip(a, b))
-        return None
+            if loopvar is not None and ir.show(e) == loopvar:
+                return (1, 0, 0)
+            k = e.get('k')
+            if k == 'ParenExpr':
+                return lin(e['c'][0], loopvar)
+            if k == 'IntegerLiteral':
+                return (0, 0, int(e.get('v', e.get('value', 0))))
+            if k == 'DeclRefExpr':
+                if e.get('n') in env:
+                    return (0,) + env[e['n']]
+                return None
+            if ir.is_call(e) and ir.call_name(e) == 'get_number_of_columns':
+                return (0, 1, 0)
+            if k == 'BinaryOperator' and e.get('op') in ('+', '-'):
+                a, b = lin(e['c'][0], loopvar), lin(e['c'][1], loopvar)
+                if a is None or b is None:
+                    return None
+                sg = 1 if e['op'] == '+' else -1
+                return tuple(x + sg * y for x, y in zip(a, b))
+            return None
 
-    def set_rows_arm(cond):
-        t = ir.show(cond).replace(' ', '').replace('Master_matrix::Option_list::', '')
-        return 'has_row_access' in t and '!has_intrusive_rows' in t and '||' not in t
+        def norm(cond):
+            return ir.show(cond).replace(' ', '').replace('Master_matrix::Option_list::', '').strip('()')
 
-    passes = []
-
-    def walk(st, active):
-        if st is None:
-            return
-        k = st.get('k')
-        if k == 'CompoundStmt':
-            for c in st.get('c') or []:
-                walk(c, active)
-            return
-        if k == 'IfStmt':
-            if set_rows_arm(st.get('cond')):
-                walk(st.get('then'), active)          # the configuration under study takes this arm
-            elif 'has_intrusive_rows' in ir.show(st.get('cond')):
-                raise AnalysisBroken('C09: unrecognised row-kind test in _orderRows: %s' % ir.show(st.get('cond')))
-            else:
-                walk(st.get('then'), active)
-                walk(st.get('else'), active)
-            return
-        if k == 'DeclStmt':
-            for d in st.get('decls', []):
-                if isinstance(d, dict) and d.get('k') == 'VarDecl' and d.get('init') is not None:
-                    v = lin(d['init'], None)
-                    if v is not None and v[0] == 0:
-                        env[d['n']] = (v[1], v[2])
-            return
-        if k == 'BinaryOperator' and st.get('op') == '=':
-            l = ir.skipcasts(st['c'][0])
-            if l is not None and l.get('k') == 'DeclRefExpr' and l.get('n') in env:
-                v = lin(st['c'][1], None)
-                if v is None or v[0] != 0:
-                    env.pop(l['n'])
+        def walk(st):
+            if st is None:
+                return
+            k = st.get('k')
+            if k == 'CompoundStmt':
+                for c in st.get('c') or []:
+                    walk(c)
+                return
+            if k == 'IfStmt':
+                t = norm(st.get('cond'))
+                if t == 'has_row_access&&!has_intrusive_rows':
+                    walk(st.get('then'))              # the configuration under study takes this arm
+                elif t == 'has_map_column_container':
+                    walk(st.get('then') if map_cfg else st.get('else'))
+                elif t == '!has_map_column_container':
+                    walk(st.get('else') if map_cfg else st.get('then'))
+                elif 'has_intrusive_rows' in t or 'has_map_column_container' in t:
+                    raise AnalysisBroken('C09: unrecognised option test in _orderRows: %s' % ir.show(st.get('cond')))
                 else:
-                    env[l['n']] = (v[1], v[2])
-            return
-        if k == 'ForStmt':
-            var = None
-            init = st.get('init')
-            if init is not None and init.get('k') == 'DeclStmt' and init.get('decls'):
-                var = init['decls'][0].get('n')
-            for x in ir.walk(st.get('body')):
-                if ir.is_call(x) and ir.call_name(x) == 'reorder' and len(ir.call_args(x)) == 2:
-                    passes.append((x, lin(ir.call_args(x)[1], var), ir.show(st.get('cond'))))
-            return
-        for x in ir.walk(st):
-            if ir.is_call(x) and ir.call_name(x) == 'reorder':
-                raise AnalysisBroken('C09: reorder called outside a counting loop in _orderRows')
-    walk(f['body'], True)
-    if not passes:
-        raise AnalysisBroken('C09: no reorder pass found in Base_swap::_orderRows')
-    carried = (0, 0)          # the columns carry the keys  c*n + d + [0, n)
+                    walk(st.get('then'))
+                    walk(st.get('else'))
+                return
+            if k == 'DeclStmt':
+                for d in st.get('decls', []):
+                    if isinstance(d, dict) and d.get('k') == 'VarDecl' and d.get('init') is not None:
+                        v = lin(d['init'], None)
+                        if v is not None and v[0] == 0:
+                            env[d['n']] = (v[1], v[2])
+                return
+            if k == 'BinaryOperator' and st.get('op') == '=':
+                l = ir.skipcasts(st['c'][0])
+                if l is not None and l.get('k') == 'DeclRefExpr' and l.get('n') in env:
+                    v = lin(st['c'][1], None)
+                    if v is None or v[0] != 0:
+                        env.pop(l['n'])
+                    else:
+                        env[l['n']] = (v[1], v[2])
+                return
+            if k in ('ForStmt', 'CXXForRangeStmt'):
+                if k == 'ForStmt':
+                    if map_cfg and ir.contains(st.get('body'), lambda z: ir.is_call(z) and ir.call_name(z) == 'reorder'):
+                        counting.append(st)
+                    var = None
+                    init = st.get('init')
+                    if init is not None and init.get('k') == 'DeclStmt' and init.get('decls'):
+                        var = init['decls'][0].get('n')
+                    head = ir.show(st.get('cond'))
+                else:
+                    if not ir.show(st.get('range')).endswith('matrix_'):
+                        if ir.contains(st.get('body'), lambda z: ir.is_call(z) and ir.call_name(z) == 'reorder'):
+                            raise AnalysisBroken('C09: _orderRows reorders in a loop over %s' % ir.show(st.get('range')))
+                        return
+                    var = (st.get('var') or {}).get('n') + '.first'      # the key of the stored column
+                    head = 'for each stored column'
+                    # `if (key >= x) x = key + 1`: x is raised above every key of the container
+                    for y in ir.walk(st.get('body')):
+                        if y.get('k') == 'IfStmt':
+                            m = re.match(r'%s>=(\w+)$' % re.escape(var), norm(y.get('cond')))
+                            if m and ir.contains(y.get('then'), lambda z: z.get('k') == 'BinaryOperator' and
+                                                 z.get('op') == '=' and ir.show(z).replace(' ', '').replace(
+                                                     '(', '').replace(')', '') == '%s=%s+1' % (m.group(1), var)):
+                                above.add(m.group(1))
+                for x in ir.walk(st.get('body')):
+                    if ir.is_call(x) and ir.call_name(x) == 'reorder' and len(ir.call_args(x)) == 2:
+                        shift = {y.get('n') for y in ir.walk(ir.call_args(x)[1]) if y.get('k') == 'DeclRefExpr'
+                                 and y.get('n') in env}
+                        passes.append((x, lin(ir.call_args(x)[1], var), head, shift))
+                return
+            for x in ir.walk(st):
+                if ir.is_call(x) and ir.call_name(x) == 'reorder':
+                    raise AnalysisBroken('C09: reorder called outside a loop over the columns in _orderRows')
+        walk(f['body'])
+        if not passes:
+            raise AnalysisBroken('C09: no reorder pass found in Base_swap::_orderRows')
+        carried = (0, 0)          # the columns carry the keys  c*n + d + K  (K: the keys of the container)
+        bad = None
+        if counting:
+            bad = 'line %s: the columns of a map container are visited by counting 0 .. n-1 (`%s`): after ' \
+                  'remove_column or insert_column(column, index) the keys are not contiguous - at() throws for a ' \
+                  'missing key and the keys >= n are never reordered' % (counting[0].get('l'),
+                                                                          ir.show(counting[0].get('cond'))[:40])
+            return bad, len(passes)
+        for call, v, cond, shift in passes:
+            if v is None or v[0] != 1:
+                bad = 'line %s: the index handed to reorder (%s) is not of the form key + c*n' % (
+                    call.get('l'), ir.show(ir.call_args(call)[1]))
+                break
+            new = (v[1], v[2])
+            if new[1] != 0 or carried[1] != 0:
+                bad = 'line %s: pass with a constant shift, ranges not comparable' % call.get('l')
+                break
+            if new[0] == carried[0]:
+                bad = 'line %s: the pass hands out the keys %s*n + K while the columns not yet re-registered ' \
+                      'still carry keys of the same range: in a row that two swapped columns share, the copy ' \
+                      'inserted for the first collides with the stale copy of the second and is dropped' % (
+                          call.get('l'), new[0])
+                break
+            if map_cfg and new[0] != 0 and not (shift and shift <= above):
+                bad = 'line %s: with the map column container the keys are not 0..n-1: the shift %s is not raised ' \
+                      'above every key, a parked column can land on the key of another column' % (
+                          call.get('l'), sorted(shift) or '?')
+                break
+            carried = new
+        if bad is None and carried != (0, 0):
+            bad = 'the last pass leaves the columns under the keys %d*n + K, not under their slot indices' % carried[0]
+        return bad, len(passes)
+    for map_cfg in (False, True):
+        bad, np_ = analyse(map_cfg)
+        chk.ob('E9-reregistration', 'Base_swap::_orderRows (%s column container) re-registers the columns in set rows in '
+               'passes whose keys never meet the keys still carried (%d passes)' % ('map' if map_cfg else 'vector', np_),
+               '%s:%d' % (rel(f['file']), f['line']), bad is None, bad or '',
+               key='E9|Base_swap::_orderRows|reregistration' + ('|map' if map_cfg else ''))
+
+
+def run_base_swaps_protocol(chk, F):
+    """The lazy row swaps of Base_matrix (E2-swap-protocol), four clauses read off Base_matrix.h / base_swap.h:
+    (rows-registered) a function that hands a container of the caller to `_container_insert` walks that container and
+    calls `_register_row` for its rows - the dictionaries of the lazy swaps know every row that holds an entry;
+    (range-flushed) the arm of add_to / multiply_*_and_add_to that receives an entry range applies the pending swaps
+    (`_orderRowsIfNecessary`) and registers the rows of the range before the column operation (the helper they share is
+    read as part of them);
+    (counted-after) a function that calls `_insert` - which first applies the pending swaps to the columns counted so
+    far - changes `nextInsertIndex_` only after that call, never in its arguments;
+    (iterator-fresh) in Base_swap::swap_rows no iterator of a dictionary is used after an insertion into that
+    dictionary on the same path (an unordered_map insertion can rehash)."""
+    fns = [f for f in F.functions if f.get('clsname') == 'Base_matrix' and f.get('inst') in (0, 2) and
+           f.get('body') is not None]
+    by = {}
+    for f in fns:
+        by.setdefault(f['name'], []).append(f)
+    # ---- rows-registered
+    n = 0
+    for f in fns:
+        tparams = set(f.get('tparams') or [])
+        for x in ir.walk(f['body']):
+            if not (ir.is_call(x) and ir.call_name(x) == '_container_insert' and len(ir.call_args(x)) == 3):
+                continue
+            a0 = ir.skipcasts(ir.call_args(x)[0])
+            src = ir.show(a0)
+            n += 1
+            ok = False
+            for lp in ir.walk(f['body']):
+                if lp.get('k') == 'CXXForRangeStmt' and ir.show(lp.get('range')) == src and \
+                        (lp.get('l') or 0) <= (x.get('l') or 0) and \
+                        ir.contains(lp.get('body'), lambda y: ir.is_call(y) and ir.call_name(y) == '_register_row'):
+                    ok = True
+            chk.ob('E2-swap-protocol', 'Base_matrix::%s registers the rows of `%s` with the lazy swaps before storing '
+                   'the column' % (f['name'].split('<')[0], src), '%s:%s' % (rel(f['file']), x.get('l')), ok,
+                   '' if ok else 'the column is stored without its rows being made known to indexToRow_ / rowToIndex_: '
+                   'is_zero_entry answers "zero" for them (map dictionary) and the next reorder throws out_of_range',
+                   key='E2|Base_matrix::%s|rows-registered' % f['name'].split('<')[0])
+    chk.expect_count('E2-swap-protocol', 'insertions of a caller\'s container', n, 2)
+    # ---- range-flushed
+    helpers = {h['name']: h for h in fns if h['name'].startswith('_')}
+    m = 0
+    for name in ('add_to', 'multiply_target_and_add_to', 'multiply_source_and_add_to'):
+        for f in by.get(name, []):
+            m += 1
+
+            def range_arm_calls(fn, depth=0):
+                """names of the calls in the statements executed when the source is not a column index"""
+                out = []
+
+                def walk(st):
+                    if st is None:
+                        return
+                    if st.get('k') == 'IfStmt' and st.get('constexpr') and 'is_integral_v' in ir.show(st.get('cond')):
+                        neg = ir.show(st.get('cond')).replace(' ', '').lstrip('(').startswith('!')
+                        walk(st.get('then') if neg else st.get('else'))
+                        return
+                    if ir.is_call(st):
+                        out.append(ir.call_name(st))
+                        if depth < 2 and ir.call_name(st) in helpers and ir.call_name(st) != fn['name']:
+                            out.extend(range_arm_calls(helpers[ir.call_name(st)], depth + 1))
+                    for c in ir.kids(st):
+                        walk(c)
+                walk(fn['body'])
+                return out
+            calls = range_arm_calls(f)
+            ops = [i for i, c in enumerate(calls) if c in ALIAS_OPS or c in ('operator+=',)]
+            first_op = min(ops) if ops else len(calls)
+            before = calls[:first_op]
+            ok = '_orderRowsIfNecessary' in before and '_register_row' in before
+            chk.ob('E2-swap-protocol', 'Base_matrix::%s: an entry range meets columns whose pending row swaps were '
+                   'applied, and its rows are registered' % name, '%s:%d' % (rel(f['file']), f['line']), ok,
+                   '' if ok else 'before the column operation the range arm calls %s: %s' % (
+                       before[:8], 'the rows of the range are those the user sees, the stored columns still have the '
+                       'rows of before the swap' if '_orderRowsIfNecessary' not in before else
+                       'the rows the range creates stay unknown to the lazy swaps'),
+                   key='E2|Base_matrix::%s|range-flushed' % name)
+    chk.expect_count('E2-swap-protocol', 'operations receiving an entry range', m, 3)
+    # ---- counted-after
+    k = 0
+    for f in fns:
+        ins = [x for x in ir.walk(f['body']) if ir.is_call(x) and ir.call_name(x) == '_insert']
+        if not ins:
+            continue
+        k += 1
+        bad = None
+        for x in ir.walk(f['body']):
+            w = None
+            if x.get('k') == 'UnaryOperator' and x.get('op') in ('++', '--') and \
+                    (ir.skipcasts(x['c'][0]) or {}).get('n') == 'nextInsertIndex_':
+                w = x
+            if x.get('k') == 'BinaryOperator' and x.get('op') in ('=', '+=') and \
+                    (ir.skipcasts(x['c'][0]) or {}).get('n') == 'nextInsertIndex_':
+                w = x
+            if w is None:
+                continue
+            inside = any(ir.contains(c, lambda y: y is w) for c in ins)
+            if inside or (w.get('l') or 0) < min(c.get('l') or 0 for c in ins):
+                bad = w
+        chk.ob('E2-swap-protocol', 'Base_matrix::%s counts the new column after `_insert` has applied the pending '
+               'swaps' % f['name'].split('<')[0], '%s:%d' % (rel(f['file']), f['line']), bad is None,
+               '' if bad is None else 'line %s: `%s` runs before / inside the call of _insert: _orderRows() then visits '
+               'the column that is not stored yet (out_of_range)' % (bad.get('l'), ir.show(bad)[:40]),
+               key='E2|Base_matrix::%s|counted-after' % f['name'].split('<')[0])
+    chk.expect_count('E2-swap-protocol', 'functions calling _insert', k, 3)
+    # ---- iterator-fresh
+    fs = [f for f in F.functions if f.get('clsname') == 'Base_swap' and f['name'] == 'swap_rows' and
+          f.get('inst') in (0, 2) and f.get('body') is not None]
+    if len(fs) != 1:
+        raise AnalysisBroken('C09: Base_swap::swap_rows not found')
+    f = fs[0]
+    its = {}
+    for x in ir.walk(f['body']):
+        if x.get('k') == 'VarDecl' and x.get('init') is not None:
+            i = ir.skipcasts(x['init'])
+            if i is not None and ir.is_call(i) and ir.call_name(i) == 'find' and ir.call_receiver(i) is not None:
+                its[x['n']] = ir.show(ir.call_receiver(i))
+    if not its:
+        raise AnalysisBroken('C09: swap_rows no longer looks its rows up with find')
+
+    def cl(x):
+        ev = []
+        if ir.is_call(x) and ir.call_name(x) in ('emplace', 'insert', 'try_emplace', 'operator[]') and \
+                ir.call_receiver(x) is not None and ir.show(ir.call_receiver(x)) in its.values():
+            ev.append('GROW')
+        if x.get('k') == 'DeclRefExpr' and x.get('n') in its:
+            ev.append('USE')
+        return ev
+    ps = paths.enumerate_paths(f, cl, loop_mode='01', keep_conds=False, cap=20000)
     bad = None
-    for call, v, cond in passes:
-        if v is None or v[0] != 1:
-            bad = 'line %s: the index handed to reorder (%s) is not of the form i + c*n' % (
-                call.get('l'), ir.show(ir.call_args(call)[1]))
-            break
-        new = (v[1], v[2])
-        if new[1] != 0 or carried[1] != 0:
-            bad = 'line %s: pass with a constant shift, ranges not comparable' % call.get('l')
-            break
-        if new[0] == carried[0]:
-            bad = 'line %s: the pass hands out the keys %s*n + [0, n) while the columns not yet re-registered ' \
-                  'still carry keys of the same range: in a row that two swapped columns share, the copy ' \
-                  'inserted for the first collides with the stale copy of the second and is dropped' % (
-                      call.get('l'), new[0])
-            break
-        carried = new
-    if bad is None and carried != (0, 0):
-        bad = 'the last pass leaves the columns under the keys %d*n + [0, n), not under their slot indices' % carried[0]
-    chk.ob('E9-reregistration', 'Base_swap::_orderRows re-registers the columns in set rows in passes whose keys never '
-           'meet the keys still carried (%d passes)' % len(passes), '%s:%d' % (rel(f['file']), f['line']), bad is None,
-           bad or '', key='E9|Base_swap::_orderRows|reregistration')
+    for p_ in ps:
+        grown = None
+        for tag, node in p_.events:
+            if tag == 'GROW':
+                # the arguments of the insertion itself are evaluated before it
+                grown = (ir.show(ir.call_receiver(node)), node)
+            elif tag == 'USE' and grown is not None and its[node['n']] == grown[0] and \
+                    not ir.contains(grown[1], lambda y: y is node) and bad is None:
+                bad = (node, grown[1])
+    chk.ob('E2-swap-protocol', 'Base_swap::swap_rows uses no iterator of a dictionary after an insertion into it '
+           '(%d iterators, %d paths)' % (len(its), len(ps)), '%s:%d' % (rel(f['file']), f['line']), bad is None,
+           '' if bad is None else 'line %s: `%s` is used after `%s` (line %s): the insertion can rehash the '
+           'unordered_map and invalidate it' % (bad[0].get('l'), bad[0].get('n'), ir.show(bad[1])[:50], bad[1].get('l')),
+           key='E2|Base_swap::swap_rows|iterator-fresh')
+
+
+def run_heap_order(chk, F):
+    """E9-heap-order: every reader of Heap_column takes column_ for a max-heap (front() is the pivot). A function that
+    fills column_ slot by slot from a range of the caller (`column_[i] = ...` in a loop over a parameter of template
+    type) makes it a heap (std::make_heap) before it returns: "the given entry range ... does not need to be somehow
+    ordered"."""
+    n = 0
+    for f in F.functions:
+        if f.get('clsname') != 'Heap_column' or f.get('inst') not in (0, 2) or f.get('body') is None:
+            continue
+        tps = {q['n'] for q in f.get('params', [])
+               if (q.get('t') or '').replace('const ', '').replace('&', '').strip() in (f.get('tparams') or [])}
+        if not tps:
+            continue
+        loops = [lp for lp in ir.walk(f['body']) if lp.get('k') == 'CXXForRangeStmt' and
+                 ir.show(lp.get('range')) in tps and
+                 ir.contains(lp.get('body'), lambda y: ir.write_target(y) is not None and y.get('op') == '=' and
+                             ir.show(ir.write_target(y)).startswith('column_['))]
+        if not loops:
+            continue
+        fills = [y for lp in loops for y in ir.walk(lp.get('body')) if ir.write_target(y) is not None and
+                 y.get('op') == '=' and ir.show(ir.write_target(y)).startswith('column_[')]
+
+        def cl(x, fills=fills):
+            if any(x is y for y in fills):
+                return ['FILL']
+            if ir.is_call(x) and ir.call_name(x) in ('make_heap', 'sort'):
+                return ['HEAP']
+            return []
+        ps = paths.enumerate_paths(f, cl, loop_mode='01', keep_conds=True, cap=40000)
+        ps = [p_ for p_ in ps if paths.consistent_constexpr(p_)]
+        n += len(loops)
+        bad = None
+        for p_ in ps:
+            t = p_.tags()
+            if 'FILL' in t and 'HEAP' not in t[len(t) - 1 - t[::-1].index('FILL'):] and bad is None:
+                bad = [e for e in p_.events if e[0] == 'FILL'][-1][1]
+        chk.ob('E9-heap-order', 'Heap_column::%s makes column_ a heap after filling it from a range of the caller '
+               '(%d loops)' % (f['name'].split('<')[0], len(loops)), '%s:%d' % (rel(f['file']), f['line']), bad is None,
+               '' if bad is None else 'line %s: column_ is filled in the order of the range and a path returns without '
+               'make_heap: front() is not the pivot, get_content() is cut at the first entry and equal rows do not '
+               'cancel' % bad.get('l'), key='E9|Heap_column::%s|heap-order|%s' % (f['name'].split('<')[0], f['line']))
+    chk.expect_count('E9-heap-order', 'slot-by-slot fills from a caller range in Heap_column', n, 6)
 
 
 def run_order_before_count(chk, F):
@@ -1170,6 +1402,8 @@ def run(tier, replay=None):
     run_reregistration(chk, F)
     run_unknown_rows(chk, F)
     run_order_before_count(chk, F)
+    run_base_swaps_protocol(chk, F)
+    run_heap_order(chk, F)
     findrule.run(chk, F, ('Base_matrix.h', 'base_swap.h', 'matrix_row_access.h',
                           'Base_matrix_with_column_compression.h'), TABLE.get('find_invariants', {}), 'C09', 3)
     c05.run_row_kinds(chk, F, only=('base_swap.h',), floor=8)
@@ -1600,6 +1834,29 @@ def run_aliasing(chk, F):
                        '`&column == this`: the column is iterated while it is modified' % (src, tgt),
                        key='E2g|%s::%s|alias' % (cname, f['name']))
     chk.expect_count('E2g-alias', 'column operations with a looked-up source', n, 6)
+    # a range can be a column of this very matrix: Matrix::get_column returns it as Master_matrix::Column, a base of
+    # the column class the compressed matrix stores - the helper that recognises it tests the type with is_base_of
+    for cname, hname in (('Base_matrix_with_column_compression', '_is_represented_by'), ('Base_matrix',
+                                                                                          '_prepare_operation')):
+        hs = [f for f in F.functions if f.get('clsname') == cname and f['name'] == hname and f.get('inst') in (0, 2)
+              and f.get('body') is not None]
+        if len(hs) != 1:
+            if cname == 'Base_matrix':
+                continue            # (no shared helper: the clause on looked-up sources above is what applies)
+            raise AnalysisBroken('C09: %s::%s not found' % (cname, hname))
+        h = hs[0]
+        tests = [x for x in ir.walk(h['body']) if x.get('k') == 'IfStmt' and x.get('constexpr') and
+                 ('is_same_v' in ir.show(x.get('cond')) or 'is_base_of_v' in ir.show(x.get('cond'))) and
+                 ir.contains(x.get('then'), lambda y: y.get('k') in ('BinaryOperator', 'CXXOperatorCallExpr') and
+                             y.get('op') == '==' and '&' in ir.show(y))]
+        ok = bool(tests) and all('is_base_of_v' in ir.show(t.get('cond')) for t in tests)
+        chk.ob('E2g-alias', '%s::%s recognises the target given as a range of the type Matrix::get_column returns'
+               % (cname, hname), '%s:%d' % (rel(h['file']), h['line']), ok,
+               '' if ok else ('no address comparison under a type test' if not tests else
+                              '`%s`: the column handed out by Matrix::get_column is a Master_matrix::Column, not the '
+                              'stored column class: the comparison is never compiled in and the column is read while '
+                              'it is modified' % ir.show(tests[0].get('cond'))[:70]),
+               key='E2g|%s::%s|range-alias' % (cname, hname))
 
 
 # ------------------------------------------------------------------ R12 order of entries (E9)
